@@ -1195,6 +1195,13 @@ def run(ctx):
     for r, f in (("R17a", r17a), ("R17b", r17b), ("R17c", r17c), ("R17d", r17d), ("R17e", r17e), ("R17f", r17f), ("R17g", r17g)):
         if ctx.want(r):
             f(ctx)
+    # the "Apply (1 +- P..) to:" operators come from exploit_perm_sym: its conservation law (R10a/R10b/R10c of C10)
+    # is a clause of this property too
+    if ctx.want("R10a") or ctx.want("R10b") or ctx.want("R10c"):
+        from . import c10
+        c10.r10_exploit(ctx)
+        if ctx.want("R10c"):
+            c10.r10c_exploit(ctx)
     if ctx.want("R16a"):
         c16.r16a(ctx)
     if ctx.want("R16b"):
